@@ -184,3 +184,15 @@ func (rw *RemoteWrapper) Exists(ctx context.Context, path string, key string) (b
 	// Check if the file exists in the remote cache
 	return rw.remote.Exists(ctx, path, key)
 }
+
+// ExistsInAllLayers checks if a file exists in both the local file system cache and the remote cache.
+// Unlike Exists, which answers whether the file can be read, this answers whether a write can be skipped:
+// a file that is only present locally still has to be written through to the remote cache,
+// otherwise remote entries referencing it would point to a file that other machines cannot load.
+func (rw *RemoteWrapper) ExistsInAllLayers(ctx context.Context, path string, key string) (bool, error) {
+	localExists, err := rw.fs.Exists(ctx, path, key)
+	if err != nil || !localExists {
+		return false, err
+	}
+	return rw.remote.Exists(ctx, path, key)
+}
